@@ -865,6 +865,11 @@ func (c *evalCtx) call(x *SExpr) (*Val, error) {
 		}
 		dom, _, _, ks, _ := e.mapComps(m)
 		return bo(sAnd("(not (= "+args[0].T+" 0))", sSel(sSel(e.get(c.cur, dom, "(Array Int (Array "+ks+" Bool))"), args[0].T), args[1].T)))
+	case "io_calls":
+		if e.ioCount == "" {
+			return in("0")
+		}
+		return in(e.ioCount)
 	case "indom":
 		m, ok := args[0].GoT.Underlying().(*types.Map)
 		if !ok {
